@@ -46,7 +46,7 @@ class OneRequest(Harness):
         with world:
             loop = world.new_loop()
             inv = scen.make_inverter(M)
-            cmd = inv._read_command(scen.register, scen.count)
+            cmd = inv._READ_DEVICE_RUNNING_DATA if scen.aa55 else inv._read_command(scen.register, scen.count)
             world.peer_send, world.peer_connect = scen.peer(world, lambda: loop, script, lambda d: 0, obs.delivered)
             obs.exc, obs.result, obs.abort = None, None, None
             try:
@@ -201,6 +201,7 @@ CONFIGS_QUICK = [
     {"transport": "udp", "keep_alive": True, "T": 2, "retries": 1},
     {"transport": "tcp", "keep_alive": False, "T": 2, "retries": 1},
     {"transport": "tcp", "keep_alive": True, "T": 2, "retries": 1},
+    {"transport": "aa55", "keep_alive": False, "T": 2, "retries": 1},
     {"transport": "udp", "keep_alive": False, "T": 3, "retries": 0},
     {"transport": "tcp", "keep_alive": True, "T": 3, "retries": 0},
 ]
@@ -330,7 +331,7 @@ def evidence_meta(tier):
                 "virtual world; per transmission the peer's kind is enumerated over the alphabet and its delays are "
                 "symbolic integers, ordered against the library's timers by the solver inside the real heap code",
         "bounds": {"transmissions": "retries+1 <= 2 (quick) / 3 (thorough), one request", "alphabet": ALPHABET, "alphabet_depth3": ALPHABET_QUICK,
-                   "delays": "0..2T+1 ticks (symbolic)", "timeout_T": "2, 3 ticks", "retries": "0, 1 (quick) / up to 2 (thorough)",
+                   "delays": "0..2T+1 ticks (symbolic)", "framings": "Modbus RTU/UDP, Modbus/TCP, AA55/UDP (ES runtime command)", "timeout_T": "2, 3 ticks", "retries": "0, 1 (quick) / up to 2 (thorough)",
                    "tcp_connect": "ok after 0..2 ticks, refused, unreachable, never",
                    "hard_cap": "transmissions > retries+3 or virtual time beyond (retries+3)(T+6)+4T abort the path as a violation"},
         "outside": ["retries > 2", "more than two fragments", "kernel behaviour of real sockets", "exception typing details "
